@@ -16,7 +16,6 @@ package xprotocol_test
 
 import (
 	"context"
-	"encoding/binary"
 	"fmt"
 	"os"
 	"sort"
@@ -24,8 +23,6 @@ import (
 	"testing"
 	"time"
 
-	"github.com/TarsCloud/TarsGo/tars/protocol/codec"
-	"github.com/TarsCloud/TarsGo/tars/protocol/res/requestf"
 	"mosn.io/api"
 	"mosn.io/pkg/buffer"
 	"mosn.io/pkg/variable"
@@ -130,292 +127,6 @@ func c08ExecCodec(c c08.Case, buf []byte) string {
 	return out
 }
 
-// ---------------------------------------------------------------- frame alphabets
-
-type c08kv struct{ k, v string }
-
-// bolt v1 / v2 frames from the layouts in bolt/protocol.go and boltv2/protocol.go
-func c08Bolt(v2 bool, name string, typ byte, cmdcode uint16, id uint32, class string, kvs []c08kv, content string) c08.Frame {
-	var hdr []byte
-	var kvLens []int // offsets (in hdr) of the 4-byte string lengths
-	for _, kv := range kvs {
-		for _, s := range []string{kv.k, kv.v} {
-			kvLens = append(kvLens, len(hdr))
-			var l [4]byte
-			binary.BigEndian.PutUint32(l[:], uint32(len(s)))
-			hdr = append(hdr, l[:]...)
-			hdr = append(hdr, s...)
-		}
-	}
-	var b []byte
-	if v2 {
-		b = append(b, 2, 1, typ)
-	} else {
-		b = append(b, 1, typ)
-	}
-	b = append(b, byte(cmdcode>>8), byte(cmdcode), 1)
-	b = append(b, byte(id>>24), byte(id>>16), byte(id>>8), byte(id), 1)
-	if v2 {
-		b = append(b, 0) // switch
-	}
-	if typ == 0 { // response: status
-		b = append(b, 0, 0)
-	} else { // timeout
-		b = append(b, 0, 0, 0x0b, 0xb8)
-	}
-	lenOff := len(b)
-	b = append(b, byte(len(class)>>8), byte(len(class)), byte(len(hdr)>>8), byte(len(hdr)))
-	b = append(b, byte(len(content)>>24), byte(len(content)>>16), byte(len(content)>>8), byte(len(content)))
-	fixed := len(b)
-	b = append(b, class...)
-	b = append(b, hdr...)
-	b = append(b, content...)
-	f := c08.Frame{Name: name, Bytes: b}
-	f.Fields = []c08.Field{{Name: "classLen", Off: lenOff, Width: 2}, {Name: "headerLen", Off: lenOff + 2, Width: 2}, {Name: "contentLen", Off: lenOff + 4, Width: 4}}
-	hstart := fixed + len(class)
-	for i, o := range kvLens {
-		nm := "keyLen"
-		if i%2 == 1 {
-			nm = "valueLen"
-		}
-		f.Fields = append(f.Fields, c08.Field{Name: fmt.Sprintf("%s[%d]", nm, i/2), Off: hstart + o, Width: 4})
-	}
-	f.Blocks = []c08.Block{
-		{Name: "class", End: fixed + len(class), Lens: []int{0}},
-		{Name: "header", End: hstart + len(hdr), Lens: []int{1}},
-		{Name: "content", End: len(b), Lens: []int{2}},
-	}
-	if len(kvLens) > 0 {
-		// the last value grows together with the header block
-		f.Blocks = append(f.Blocks, c08.Block{Name: "last header value", End: hstart + len(hdr), Lens: []int{1, 3 + len(kvLens) - 1}})
-	}
-	return f
-}
-
-func c08BoltFrames(v2 bool) []c08.Frame {
-	kv2 := []c08kv{{"service", "com.x.Svc:1.0"}, {"k", ""}}
-	return []c08.Frame{
-		c08Bolt(v2, "small request", 1, 1, 1, "c", nil, "x"),
-		c08Bolt(v2, "request with headers+body", 1, 1, 0x01020304, "com.x.Req", kv2, "body-bytes"),
-		c08Bolt(v2, "response", 0, 2, 0x01020304, "com.x.Resp", []c08kv{{"a", "b"}}, "resp"),
-		c08Bolt(v2, "heartbeat", 1, 0, 7, "", nil, ""),
-		c08Bolt(v2, "heartbeat ack", 0, 0, 7, "", nil, ""),
-		c08Bolt(v2, "one-way", 2, 1, 9, "com.x.Req", []c08kv{{"k", "v"}}, "ow"),
-	}
-}
-
-// hessian2 short strings (length 0..31: one length byte + bytes), maps 'H' … 'Z', null 'N'
-type c08hb struct {
-	b    []byte
-	lens []int
-}
-
-func (h *c08hb) str(s string) *c08hb {
-	h.lens = append(h.lens, len(h.b))
-	h.b = append(h.b, byte(len(s)))
-	h.b = append(h.b, s...)
-	return h
-}
-func (h *c08hb) raw(b ...byte) *c08hb { h.b = append(h.b, b...); return h }
-
-func c08Dubbo(name string, flag, status byte, id uint64, payload *c08hb) c08.Frame {
-	b := []byte{0xda, 0xbb, flag, status}
-	var t [8]byte
-	binary.BigEndian.PutUint64(t[:], id)
-	b = append(b, t[:]...)
-	binary.BigEndian.PutUint32(t[:4], uint32(len(payload.b)))
-	b = append(b, t[:4]...)
-	b = append(b, payload.b...)
-	f := c08.Frame{Name: name, Bytes: b, Fields: []c08.Field{{Name: "dataLen", Off: 12, Width: 4}}}
-	for i, o := range payload.lens {
-		f.Fields = append(f.Fields, c08.Field{Name: fmt.Sprintf("hessianStrLen[%d]", i), Off: 16 + o, Width: 1})
-	}
-	f.Blocks = []c08.Block{{Name: "payload", End: len(b), Lens: []int{0}}}
-	return f
-}
-
-func c08DubboFrames() []c08.Frame {
-	small := func() *c08hb { return (&c08hb{}).str("2.0.2").str("com.x.Svc").str("1.0").str("m").str("").raw('N') }
-	full := (&c08hb{}).str("2.0.2").str("com.x.Svc").str("1.0").str("hello").str("Ljava/lang/String;I").str("arg").raw(0x91).
-		raw('H').str("path").str("com.x.Svc").str("interface").str("com.x.Svc").str("group").str("g").raw('Z')
-	resp := (&c08hb{}).raw(0x91).str("ok")
-	return []c08.Frame{
-		c08Dubbo("small request", 0xC2, 0, 1, small()),
-		c08Dubbo("request with attachments", 0xC2, 0, 0x0102030405060708, full),
-		c08Dubbo("response", 0x02, 20, 0x0102030405060708, resp),
-		c08Dubbo("heartbeat", 0xE2, 0, 5, (&c08hb{}).raw('N')),
-		c08Dubbo("one-way", 0x82, 0, 9, small()),
-	}
-}
-
-// dubbo-thrift frames from the layout in dubbothrift/protocol.go
-func c08Thrift(name string, service string, id uint64, mtype byte, method string, seq uint32, args []byte) c08.Frame {
-	be32 := func(v uint32) []byte { var t [4]byte; binary.BigEndian.PutUint32(t[:], v); return t[:] }
-	var b []byte
-	b = append(b, 0, 0, 0, 0) // message length (fixed below)
-	b = append(b, 0xda, 0xbc) // magic
-	b = append(b, 0, 0, 0, 0) // message length again
-	b = append(b, 0, 0)       // header length
-	b = append(b, 1)          // version
-	svcLenOff := len(b)
-	b = append(b, be32(uint32(len(service)))...)
-	b = append(b, service...)
-	var t [8]byte
-	binary.BigEndian.PutUint64(t[:], id)
-	b = append(b, t[:]...)
-	headerEnd := len(b)
-	b = append(b, 0x80, 0x01, 0x00, mtype) // TBinaryProtocol strict message begin
-	mLenOff := len(b)
-	b = append(b, be32(uint32(len(method)))...)
-	b = append(b, method...)
-	b = append(b, be32(seq)...)
-	b = append(b, args...)
-	binary.BigEndian.PutUint32(b[0:], uint32(len(b)-4))
-	binary.BigEndian.PutUint32(b[6:], uint32(len(b)-4))
-	binary.BigEndian.PutUint16(b[10:], uint16(headerEnd-4))
-	f := c08.Frame{Name: name, Bytes: b, Fields: []c08.Field{
-		{Name: "messageLen(outer)", Off: 0, Width: 4}, {Name: "messageLen(inner)", Off: 6, Width: 4}, {Name: "headerLen", Off: 10, Width: 2},
-		{Name: "serviceNameLen", Off: svcLenOff, Width: 4}, {Name: "methodNameLen", Off: mLenOff, Width: 4}}}
-	f.Blocks = []c08.Block{
-		{Name: "header", End: headerEnd, Lens: []int{0, 1, 2}},
-		{Name: "body", End: len(b), Lens: []int{0, 1}},
-		{Name: "body(outer length only)", End: len(b), Lens: []int{0}},
-	}
-	return f
-}
-
-func c08ThriftFrames() []c08.Frame {
-	argStr := []byte{0x0b, 0x00, 0x01, 0x00, 0x00, 0x00, 0x02, 'h', 'i', 0x00} // field 1: string "hi"; stop
-	return []c08.Frame{
-		c08Thrift("small request", "s", 1, 1, "m", 1, []byte{0x00}),
-		c08Thrift("request with args", "com.x.Svc", 0x0102030405060708, 1, "hello", 7, argStr),
-		c08Thrift("response", "com.x.Svc", 0x0102030405060708, 2, "hello", 7, argStr),
-		c08Thrift("one-way", "com.x.Svc", 9, 4, "fire", 8, []byte{0x00}),
-	}
-}
-
-// tars frames come from TarsGo's own writer; the length fields are located by walking the TLV structure.
-
-// c08TarsOne walks ONE field starting at off; end reports a STRUCT_END.
-func c08TarsOne(b []byte, off int, f *c08.Frame, path string) (next int, end bool) {
-	head := b[off]
-	ty, tag := head&0x0f, int(head>>4)
-	off++
-	if tag == 15 {
-		tag = int(b[off])
-		off++
-	}
-	nm := fmt.Sprintf("%s.%d", path, tag)
-	switch ty {
-	case 0:
-		off++
-	case 1:
-		off += 2
-	case 2, 4:
-		off += 4
-	case 3, 5:
-		off += 8
-	case 6:
-		n := int(b[off])
-		f.Fields = append(f.Fields, c08.Field{Name: nm + ":string1Len", Off: off, Width: 1})
-		off += 1 + n
-		f.Blocks = append(f.Blocks, c08.Block{Name: nm + ":string1", End: off, Lens: []int{0, len(f.Fields) - 1}})
-	case 7:
-		n := int(binary.BigEndian.Uint32(b[off:]))
-		f.Fields = append(f.Fields, c08.Field{Name: nm + ":string4Len", Off: off, Width: 4})
-		off += 4 + n
-		f.Blocks = append(f.Blocks, c08.Block{Name: nm + ":string4", End: off, Lens: []int{0, len(f.Fields) - 1}})
-	case 8, 9: // map, list: size as an int field with tag 0, then 2*size / size elements
-		n, o2, _ := c08TarsInt(b, off, f, nm+":size")
-		off = o2
-		if ty == 8 {
-			n *= 2
-		}
-		for i := 0; i < n; i++ {
-			off, _ = c08TarsOne(b, off, f, fmt.Sprintf("%s[%d]", nm, i))
-		}
-	case 10:
-		off = c08TarsWalk(b, off, f, nm)
-	case 11:
-		return off, true
-	case 12:
-	case 13: // simple list: head byte (type byte), size int, bytes
-		off++
-		n, o2, li := c08TarsInt(b, off, f, nm+":bytesLen")
-		off = o2 + n
-		if li >= 0 {
-			f.Blocks = append(f.Blocks, c08.Block{Name: nm + ":bytes", End: off, Lens: []int{0, li}})
-		}
-	default:
-		panic("c08: unexpected tars type")
-	}
-	return off, false
-}
-
-// c08TarsWalk walks fields until the end of b or a STRUCT_END.
-func c08TarsWalk(b []byte, off int, f *c08.Frame, path string) int {
-	for off < len(b) {
-		var end bool
-		off, end = c08TarsOne(b, off, f, path)
-		if end {
-			break
-		}
-	}
-	return off
-}
-
-// an integer TLV (tag 0) used as size: records the field when it has bytes (ZERO_TAG has none)
-func c08TarsInt(b []byte, off int, f *c08.Frame, name string) (val int, next int, fieldIdx int) {
-	ty := b[off] & 0x0f
-	off++
-	switch ty {
-	case 12:
-		return 0, off, -1
-	case 0:
-		f.Fields = append(f.Fields, c08.Field{Name: name, Off: off, Width: 1})
-		return int(b[off]), off + 1, len(f.Fields) - 1
-	case 1:
-		f.Fields = append(f.Fields, c08.Field{Name: name, Off: off, Width: 2})
-		return int(binary.BigEndian.Uint16(b[off:])), off + 2, len(f.Fields) - 1
-	case 2:
-		f.Fields = append(f.Fields, c08.Field{Name: name, Off: off, Width: 4})
-		return int(binary.BigEndian.Uint32(b[off:])), off + 4, len(f.Fields) - 1
-	}
-	panic("c08: unexpected tars size type")
-}
-
-func c08TarsFrame(name string, w interface{ WriteTo(*codec.Buffer) error }) c08.Frame {
-	wb := codec.NewBuffer()
-	if err := w.WriteTo(wb); err != nil {
-		panic(err)
-	}
-	body := wb.ToBytes()
-	b := make([]byte, 4, 4+len(body))
-	binary.BigEndian.PutUint32(b, uint32(4+len(body)))
-	b = append(b, body...)
-	f := c08.Frame{Name: name, Bytes: b, Fields: []c08.Field{{Name: "packetLen", Off: 0, Width: 4}}}
-	end := c08TarsWalk(b, 4, &f, "pkt")
-	if end != len(b) {
-		panic(fmt.Sprintf("c08: tars walker stopped at %d of %d", end, len(b)))
-	}
-	f.Blocks = append(f.Blocks, c08.Block{Name: "packet", End: len(b), Lens: []int{0}})
-	return f
-}
-
-func c08TarsFrames() []c08.Frame {
-	long := strings.Repeat("v", 260) // forces a STRING4
-	return []c08.Frame{
-		c08TarsFrame("small request", &requestf.RequestPacket{IVersion: 1, IRequestId: 1, SServantName: "s", SFuncName: "f"}),
-		c08TarsFrame("request with context+body", &requestf.RequestPacket{IVersion: 1, CPacketType: 0, IMessageType: 0, IRequestId: 0x01020304,
-			SServantName: "App.Svc.Obj", SFuncName: "hello", SBuffer: []int8{1, 2, 3, 4, 5}, ITimeout: 3000,
-			Context: map[string]string{"k": "v"}, Status: map[string]string{"s": "t"}}),
-		c08TarsFrame("request with string4", &requestf.RequestPacket{IVersion: 1, IRequestId: 3, SServantName: "s", SFuncName: "f", Context: map[string]string{"k": long}}),
-		c08TarsFrame("response", &requestf.ResponsePacket{IVersion: 1, IRequestId: 0x01020304, IRet: 0, SBuffer: []int8{9, 8, 7}, SResultDesc: "ok",
-			Status: map[string]string{"s": "t"}, Context: map[string]string{"k": "v"}}),
-		c08TarsFrame("one-way", &requestf.RequestPacket{IVersion: 1, CPacketType: 1, IRequestId: 0, SServantName: "s", SFuncName: "f"}),
-	}
-}
-
 // ---------------------------------------------------------------- parts
 
 type c08Target struct {
@@ -442,7 +153,7 @@ func c08Gen(ts []c08Target) func(yield func(c08.Case) bool) {
 }
 
 const c08Bound = "per codec: every frame of the alphabet x {every truncation; every length field x {0,1,2,3,true-1,true+1,2^16-1,2^31-1,2^31,2^32-1} (clamped to the field width); every byte x {0x00,0xFF,^b}; every block +1..3 bytes of {00,01,FF} and -1..3 bytes with lengths adjusted; 1..3 trailing bytes}; all byte strings of length <=2; all 3-byte strings starting with the protocol magic"
-const c08Rule = "each input is decoded three times through XProtocol.Decode + ProtocolMatch (exact-capacity buffer, 4096 spare bytes of 0xA5, of 0x3C); distinct = distinct input bytes per target; outcome = (target, class, frame|more|error|panic). Oracle: no panic escapes (a panic the codec recovers and returns as an error is allowed); outcomes with different poison identical; TotalAlloc delta of a call <= 64KiB+32*len(input) (confirmed by the minimum of 3 re-measurements); the call returns (60s; or 300ms with >1GiB heap). What a decoder returns for a corrupted frame (frame vs error vs more) is NOT compared."
+const c08Rule = "each input is decoded three times through XProtocol.Decode + ProtocolMatch (exact-capacity buffer, 4096 spare bytes of 0xA5, of 0x3C); distinct = distinct input bytes per target; outcome = (target, class, frame|more|error|panic). Oracle: no panic escapes (a panic the codec recovers and returns as an error is allowed); outcomes with different poison identical; TotalAlloc delta of a call <= 1MiB+32*len(input) (confirmed by the minimum of 3 re-measurements); the call returns (60s; or >300ms with >128MiB in use and growing). What a decoder returns for a corrupted frame (frame vs error vs more) is NOT compared."
 
 func c08Run(t *testing.T, part string, ts []c08Target) {
 	c08.Main(t, c08.Spec{Prop: "C08", Part: part, Budget: time.Duration(vreport.Pick(4, 20)) * time.Minute,
@@ -453,33 +164,33 @@ func c08Run(t *testing.T, part string, ts []c08Target) {
 
 func TestVerifC08Bolt(t *testing.T) {
 	t.Parallel()
-	c08Run(t, "bolt", []c08Target{{"bolt", c08BoltFrames(false), [][]byte{{0x01}}}})
+	c08Run(t, "bolt", []c08Target{{"bolt", c08.BoltFrames(false), [][]byte{{0x01}}}})
 }
 
 func TestVerifC08BoltV2(t *testing.T) {
 	t.Parallel()
-	c08Run(t, "boltv2", []c08Target{{"boltv2", c08BoltFrames(true), [][]byte{{0x02}}}})
+	c08Run(t, "boltv2", []c08Target{{"boltv2", c08.BoltFrames(true), [][]byte{{0x02}}}})
 }
 
 func TestVerifC08Dubbo(t *testing.T) {
 	t.Parallel()
 	// the decoder's behaviour depends on the listener name variable (attachment parsing)
 	c08Run(t, "dubbo", []c08Target{
-		{"dubbo", c08DubboFrames(), [][]byte{{0xda, 0xbb}}},
-		{"dubbo/" + dubbo.IngressDubbo, c08DubboFrames(), nil},
-		{"dubbo/" + dubbo.EgressDubbo, c08DubboFrames(), nil},
+		{"dubbo", c08.DubboFrames(), [][]byte{{0xda, 0xbb}}},
+		{"dubbo/" + dubbo.IngressDubbo, c08.DubboFrames(), nil},
+		{"dubbo/" + dubbo.EgressDubbo, c08.DubboFrames(), nil},
 	})
 }
 
 func TestVerifC08DubboThrift(t *testing.T) {
 	t.Parallel()
-	c08Run(t, "dubbothrift", []c08Target{{"dubbo-thrift", c08ThriftFrames(), [][]byte{{0xda, 0xbc}}}})
+	c08Run(t, "dubbothrift", []c08Target{{"dubbo-thrift", c08.ThriftFrames(), [][]byte{{0xda, 0xbc}}}})
 }
 
 func TestVerifC08Tars(t *testing.T) {
 	t.Parallel()
 	// tars has no magic; the matcher keys on byte 4 == 0x10 (iVersion head); 0x00 0x00 is the top of every sane length prefix
-	c08Run(t, "tars", []c08Target{{"tars", c08TarsFrames(), [][]byte{{0x00, 0x00}, {0x10}}}})
+	c08Run(t, "tars", []c08Target{{"tars", c08.TarsFrames(), [][]byte{{0x00, 0x00}, {0x10}}}})
 }
 
 // Vacuity guard: every frame of the alphabets decodes to a frame consuming exactly its bytes.
@@ -488,8 +199,8 @@ func TestVerifC08Alphabet(t *testing.T) {
 		return
 	}
 	p := vreport.Begin("C08", "codec-alphabet-valid", time.Minute)
-	all := []c08Target{{"bolt", c08BoltFrames(false), nil}, {"boltv2", c08BoltFrames(true), nil}, {"dubbo", c08DubboFrames(), nil},
-		{"dubbo/" + dubbo.IngressDubbo, c08DubboFrames(), nil}, {"dubbo-thrift", c08ThriftFrames(), nil}, {"tars", c08TarsFrames(), nil}}
+	all := []c08Target{{"bolt", c08.BoltFrames(false), nil}, {"boltv2", c08.BoltFrames(true), nil}, {"dubbo", c08.DubboFrames(), nil},
+		{"dubbo/" + dubbo.IngressDubbo, c08.DubboFrames(), nil}, {"dubbo-thrift", c08.ThriftFrames(), nil}, {"tars", c08.TarsFrames(), nil}}
 	for _, tg := range all {
 		for _, f := range tg.frames {
 			p.Eval()
